@@ -167,6 +167,74 @@ theorem removeSeg_wf (S : List Seg) (b e : Int) (hwf : ∀ s ∈ S, s.1 < s.2) :
           · rw [adjust_cases]; simp only; split <;> split <;> omega
           · exact ih hwf' x hx
 
+/-! ### canonical form -/
+
+theorem insertSeg_inside (s : Seg) (L : List Seg) (t : Int) :
+    inside (insertSeg s L) t = true ↔ (s.1 ≤ t ∧ t < s.2) ∨ inside L t = true := by
+  induction L with
+  | nil => simp [insertSeg, inside]
+  | cons x xs ih =>
+    unfold insertSeg
+    split
+    · rw [inside_cons]
+    · rw [inside_cons, ih, inside_cons]
+      constructor
+      · rintro (h | h | h)
+        · exact Or.inr (Or.inl h)
+        · exact Or.inl h
+        · exact Or.inr (Or.inr h)
+      · rintro (h | h | h)
+        · exact Or.inr (Or.inl h)
+        · exact Or.inl h
+        · exact Or.inr (Or.inr h)
+
+theorem sortSegs_inside (L : List Seg) (t : Int) : inside (sortSegs L) t = inside L t := by
+  induction L with
+  | nil => rfl
+  | cons s rest ih =>
+    rw [Bool.eq_iff_iff]
+    show inside (insertSeg s (sortSegs rest)) t = true ↔ _
+    rw [insertSeg_inside, inside_cons, ih]
+
+theorem mergeRun_inside (L : List Seg) (cur : Seg) (t : Int) :
+    inside (mergeRun cur L) t = true ↔ (cur.1 ≤ t ∧ t < cur.2) ∨ inside L t = true := by
+  induction L generalizing cur with
+  | nil => simp [mergeRun, inside]
+  | cons x xs ih =>
+    unfold mergeRun
+    split
+    · rw [ih, inside_cons]
+      simp only
+      arith_with (inside xs t = true)
+      all_goals (split <;> split <;> omega)
+    · rw [inside_cons, ih, inside_cons]
+
+theorem filter_nonempty_inside (S : List Seg) (t : Int) :
+    inside (S.filter (fun s => decide (s.1 < s.2))) t = inside S t := by
+  induction S with
+  | nil => rfl
+  | cons s rest ih =>
+    rw [Bool.eq_iff_iff, List.filter_cons]
+    by_cases h : s.1 < s.2
+    · simp only [h, decide_true, if_true, inside_cons, ih]
+    · simp only [h, decide_false, Bool.false_eq_true, if_false, inside_cons, ih]
+      constructor
+      · exact Or.inr
+      · rintro (h1 | h1)
+        · omega
+        · exact h1
+
+theorem canon_inside (S : List Seg) (t : Int) : inside (canon S) t = inside S t := by
+  unfold canon
+  have h := sortSegs_inside (S.filter (fun s => decide (s.1 < s.2))) t
+  rw [filter_nonempty_inside] at h
+  cases hs : sortSegs (S.filter (fun s => decide (s.1 < s.2))) with
+  | nil => rw [hs] at h; simpa using h
+  | cons s rest =>
+    rw [hs] at h
+    simp only
+    rw [← h, Bool.eq_iff_iff, mergeRun_inside, inside_cons]
+
 /-! ### folds -/
 
 theorem addAll_inside (X S : List Seg) (t : Int) :
